@@ -562,11 +562,17 @@ def run_history(ctx, res, rng, hid, length, burst, pend):
             if not ops:
                 break
             steps += len(ops)
+            fn_raw = list(fn)
             did_coalesce = False
             if burst and rng.random() < 0.5:
                 n0 = len(fn)
                 fn = py_coalesce(fn)
                 did_coalesce = len(fn) < n0
+            if burst:
+                subj = [i for _, i in rename_subjects(fs_before, ops) if i is not None]
+                pend["hyp"].append((fs_wire(fs_before), [op_wire(o) for o in ops], len(set(subj)) == len(subj),
+                                    [[p.encode(), i, fl] for p, i, fl in fn_raw], len(set((p, i) for p, i, _ in fn_raw)) == len(fn_raw),
+                                    [op_json(o) for o in ops]))
             is_paced = paced(ops, kinds_at)
             if burst:
                 res.hist("burst_paced", is_paced)
@@ -631,6 +637,14 @@ def run_history(ctx, res, rng, hid, length, burst, pend):
                 sig = make_sig("fsevents", law, "several-ops-per-batch" if burst else "one-op-per-batch", extra, fn)
                 if burst:
                     sig["pattern"], sig["detail"] = batch_pattern(fs_before, ops, did_coalesce)
+                    # every failing batch must violate a hypothesis of C20_fsevents_replay_full: F12a-c the executable
+                    # one_rename_per_item, F12e distinct_itemsb (it was coalesced), F12d the semantic stat/walk clauses
+                    one_ok, dist_ok = pend["hyp"][-1][2], pend["hyp"][-1][4]
+                    explained = (not one_ok) or (did_coalesce and not dist_ok) or \
+                        sig["pattern"] == "rename-flagged-path-moved-again-before-processing"
+                    if not explained:
+                        res.mismatches.append(Mismatch("C20_fsevents_replay_full hypotheses vs failing batch",
+                                                       [op_json(o) for o in ops], "hypotheses hold", "replay law failed: " + detail[:200]))
                 res.failures.append(Failure(
                     what=f"FSEventsEmitter: {law} law violated", signature=sig,
                     case={"emitter": "fsevents", "recursive": rec_f, "mode": sig["mode"], "coalesce": did_coalesce, "tree_before": sorted([list(p), k_] for p, (k_, _) in before.items()),
@@ -804,6 +818,22 @@ def resolve_contracts(ctx, res, pend):
             res.mismatches.append(Mismatch(pair, oj, str(mo)[:500], str(real)[:500]))
 
 
+def resolve_hypotheses(ctx, res, pend):
+    """The executable hypotheses of C20_fsevents_replay_full (FsEvents.one_rename_per_item, FsEvents.distinct_itemsb),
+    extracted, against the harness's own reading of the operation log that classifies the F12 patterns."""
+    cases, metas = [], []
+    for fb, ows, one, nat, dist, oj in pend["hyp"]:
+        cases.append(sx([Atom("onerename"), fb, ows]))
+        metas.append(("FsEvents.one_rename_per_item vs operation log", oj, one))
+        cases.append(sx([Atom("distinct"), nat]))
+        metas.append(("FsEvents.distinct_itemsb vs native batch", oj, dist))
+    for (pair, oj, want), out in zip(metas, core.run_model("platemit", cases)):
+        res.traces_validated += 1
+        res.hist(pair.split()[0], bool(want))
+        if (out == "1") != bool(want):
+            res.mismatches.append(Mismatch(pair, oj, str(out), str(want)))
+
+
 def run_removed_self(ctx, res: Result):
     """The synthetic buffer winapi builds when the watched directory itself is deleted, end to end:
     _generate_observed_path_deleted_event -> _parse_event_buffer -> queue_events = DirDeletedEvent(root) + stop."""
@@ -849,7 +879,7 @@ def run(ctx, res: Result):
         if c.get("emitter"):
             replay(ctx, c, res, quiet=True)
     rng = ctx.rng("emit")
-    pend = {"apply": [], "kern": [], "win": [], "fse": [], "con": []}
+    pend = {"apply": [], "kern": [], "win": [], "fse": [], "con": [], "hyp": []}
     n_hist = 120 if not ctx.thorough else 1200
     n_burst = 40 if not ctx.thorough else 400
     for h in range(n_hist):
@@ -858,6 +888,7 @@ def run(ctx, res: Result):
         run_history(ctx, res, rng, h, rng.choice([4, 6, 8]), True, pend)
     resolve(ctx, res, pend)
     resolve_contracts(ctx, res, pend)
+    resolve_hypotheses(ctx, res, pend)
     res.notes.append(f"emitters: {n_hist} one-op-per-batch histories and {n_burst} burst histories (2-3 operations per batch, "
                      "FSEvents batches coalesced per (item, path) with probability 1/2) over names {a,b,c,ab}, depth <= 4, executed on a "
                      "real scratch directory; Windows natives through read_events/_parse_event_buffer; non-trivial = a rename / "
